@@ -247,6 +247,28 @@ class FuncFacts:
                 out.append((v, st))
         return out
 
+    def expand_fresh(self, expr):
+        """<fresh entry>.<field> -> the constructor argument that initialised it (fields of a freshly built entry that are never
+        assigned afterwards), then single-definition locals"""
+        ct = self.ct
+        reassigned = {(norm(e.entry), e.field) for e in self.ev("field_assign")}
+        ff = self
+
+        class X(ast.NodeTransformer):
+            def visit_Attribute(self, n):
+                self.generic_visit(n)
+                if isinstance(n.value, ast.Name) and isinstance(n.ctx, ast.Load):
+                    info = ff.entry_names.get(n.value.id)
+                    if info and info[0] == "fresh" and (n.value.id, n.attr) not in reassigned:
+                        a = ct.entry_ctor_args(info[1]).get(n.attr)
+                        if a is not None:
+                            return copy.deepcopy(a)
+                return n
+
+        import copy
+        e = X().visit(copy.deepcopy(expr))
+        return self.resolve(e)
+
     def single_def(self, name):
         d = self.defs.get(name, [])
         return d[0] if len(d) == 1 else None
@@ -476,9 +498,11 @@ class Container:
         if not fa:
             raise AnalysisError("Tdf.add_block no longer re-points later slots (no `.offset` assignment on table entries)")
         want = to_poly(ast.parse(f"{new_entry}.offset + {new_entry}.size", mode="eval").body, self.ctx)
+        want_x = to_poly(ff.expand_fresh(ast.parse(f"{new_entry}.offset + {new_entry}.size", mode="eval").body), self.ctx)
         for e in fa:
             got = to_poly(ff.resolve(e.value), self.ctx)
-            if e.op == "=" and got == want:
+            got_x = to_poly(ff.expand_fresh(e.value), self.ctx)
+            if e.op == "=" and (got == want or (got_x is not None and got_x == want_x)):
                 rep.ok("container-size", f"add_block: later slots get {new_entry}.offset + {new_entry}.size", nontrivial=True)
             else:
                 rep.fail("container-size", mod, "Tdf.add_block", e.stmt,
